@@ -62,6 +62,7 @@ def gen_cases(tier, seed):
     mixes = ('P', 'PV', 'PVB', 'PVs', 'P0V')
     classes = ('bias', 'sm', 'subset')      # subset: bias states on axes that are not a prefix of x, y, z
     steps = (0.5, 1.0)
+    # 0.03 s: a covariance step below the 0.05 s IMU interval (one increment per step), on the fixed scenarios only
     for mo, mix, cl, st, wa in itertools.product(motions, mixes, classes, steps, (True, False)):
         k = motions.index(mo) + mixes.index(mix) + classes.index(cl) + steps.index(st) + int(wa)
         always = (mo == 0 and st == 0.5 and ((mix in ('PVs', 'P0V') and cl == 'bias') or (mix == 'PVB' and cl == 'sm'))) or \
@@ -69,6 +70,8 @@ def gen_cases(tier, seed):
         if tier == 'quick' and (k + seed) % 4 != 0 and not always:
             continue
         cases.append(dict(part='equivalence', motion=mo, mix=mix, cls=cl, step=st, wa=wa))
+    for mo, mix, cl, wa in ((0, 'PV', 'bias', True), (1, 'PVB', 'sm', False), (3, 'P', 'subset', True)):
+        cases.append(dict(part='equivalence', motion=mo, mix=mix, cls=cl, step=0.03, wa=wa))
     for L in (1, 2, 3):
         for seq in itertools.product(('FB', 'FF'), repeat=L):
             cases.append(dict(part='rerun', seq=list(seq), poke=False))
@@ -158,10 +161,12 @@ def run_pair(case, s):
     meas = []
     if 'P' in case['mix']:
         pm = ref.iloc[0::40] if '0' in case['mix'] else ref.iloc[20::40]
+        arm = np.array([2.0, -1.0, 0.5]) if case['motion'] == 1 else None      # antenna lever arm on one motion
+        src = transform.translate_trajectory(pm, arm) if arm is not None else pm
         meas.append(measurements.Position(pd.DataFrame(
-            transform.perturb_lla(pm[['lat', 'lon', 'alt']].values, s * 1.0 * nz[20::40][:len(pm)] if len(nz[20::40]) >= len(pm)
+            transform.perturb_lla(src[['lat', 'lon', 'alt']].values, s * 1.0 * nz[20::40][:len(pm)] if len(nz[20::40]) >= len(pm)
                                   else s * 1.0 * nz[:len(pm)]), index=pm.index,
-            columns=['lat', 'lon', 'alt']), 1.0 * s))
+            columns=['lat', 'lon', 'alt']), 1.0 * s, imu_to_antenna_b=arm))
     if 'V' in case['mix']:
         vm = ref.iloc[20::40] if 's' in case['mix'] else ref.iloc[30::40]
         meas.append(measurements.NedVelocity(pd.DataFrame(
